@@ -74,7 +74,7 @@ pub fn tree_parts(prop: &str, std: &Std) -> Vec<Part> {
         "C08" => {
             parts.push(Part::new(base(), usize::MAX, usize::MAX, sweep.clone()));
             parts.push(Part::new(pools::eolblank_pool(sb.clone()), 3000, 31_770, sweep2.clone()));
-            parts.push(Part::new(pools::eol_pool(sb.clone()), 3000, usize::MAX, sweep2.clone()));
+            parts.push(Part::new(pools::eol_pool(sb.clone()), usize::MAX, usize::MAX, sweep2.clone()));
             parts.push(Part::new(pools::ws_pool(sb.clone()), 3000, 80_000, sweep2.clone()));
             parts.push(Part::new(pools::splice_pool(sb.clone(), std.frags.clone()), 3000, 72_678, sweep2.clone()));
             parts.push(Part::new(pools::comment_pool(sb.clone()), 3000, 60_000, sweep2.clone()));
@@ -90,7 +90,7 @@ pub fn tree_parts(prop: &str, std: &Std) -> Vec<Part> {
         "C10" => {
             parts.push(Part::new(base(), usize::MAX, usize::MAX, sweep.clone()));
             parts.push(Part::new(pools::eolblank_pool(sb.clone()), 3000, 31_770, sweep2.clone()));
-            parts.push(Part::new(pools::eol_pool(sb.clone()), 1500, 18_391, sweep2.clone()));
+            parts.push(Part::new(pools::eol_pool(sb.clone()), usize::MAX, usize::MAX, sweep2.clone()));
             parts.push(Part::new(pools::uni_pool(sb.clone()), 3000, 21_240, sweep2.clone()));
             parts.push(Part::new(pools::splice_pool(sb.clone(), std.frags.clone()), 4000, 72_678, sweep2.clone()));
             parts.push(Part::new(pools::paren_pool(sb.clone()), 2000, 33_196, sweep2.clone()));
